@@ -148,6 +148,18 @@ CHECKS = {
         "<name>.cdep. Bounds: <=9 options, <=5 syncs, one enumerated sync per history.",
         "DESIGN.md 3/C12",
     ),
+    "C14": (
+        "exploration",
+        "model-based testing of the diff protocol: a client model folds every reply of an in-process server session and is compared with the server's full state and with fresh servers started on saved files (Hypothesis)",
+        "Generated trees x request sessions (set incl. invalid targets / out-of-range values, reset of options / menu ids / all, load, "
+        "save, several keys per request) in protocol versions 1-3; after the session the client model must equal what the server "
+        "computes from scratch for its live configuration, with everything the full state lacks reported invisible; every save "
+        "(the client's own and a final one) is checked by starting a fresh server on the saved file. Exploration over request histories "
+        "with an explicit client-side reference model.",
+        "Trusted: vk/server.py (lazy stdin / captured stdout driver, Client fold) and the rule that an invisible option's 'defaults' flag "
+        "is not compared after a restart (hidden user values are not persisted by design). One protocol version per session. <=20 requests.",
+        "DESIGN.md 3/C14",
+    ),
 }
 
 NOT_YET = {}
